@@ -1,2 +1,3 @@
 -- Root of the `AmVerif` library: models, generated definitions, property theorems, audit.
 import AmVerif.Props.C18
+import AmVerif.Props.C17
